@@ -40,6 +40,12 @@ def number_kinds(r):
 
 
 def same(a, b):
+    # (Python compares an int with a float exactly: 2**53 + 1 is not 9007199254740992.0 - a result that went through float() shows)
+    if isinstance(a, int) or isinstance(b, int):
+        try:
+            return bool(a == b)
+        except Exception:
+            pass
     a, b = float(a), float(b)
     return a == b or (a != a and b != b)
 
@@ -78,7 +84,7 @@ def check(ctx, x, xvals, kname, k, case, is_array, elementwise_k=None):
                 ctx.violation("not-reciprocal:%s:%s" % (key_cls, label), dict(c, got=got, want=want), replay=c)
         if isinstance(x, FixedArray) and r.dimension != x.dimension:
             ctx.violation("dimension-changed:%s" % label, dict(c, got=r.dimension), replay=c)
-        got_vals = programs.values_of(r)
+        got_vals = [r.GetValue()] if isinstance(r, Scalar) else list(r.GetValues())  # (as they are held: an int stays an int)
         vop = VALUE_OPS[label]
         try:
             if elementwise_k is not None:
